@@ -12,6 +12,7 @@
 #include <sys/mount.h>
 #include <fcntl.h>
 #include <grp.h>
+#include <pwd.h>
 #include <limits.h>
 #include <pthread.h>
 #include <sched.h>
@@ -39,9 +40,10 @@ static void jhex(const char *k, const char *v) { printf("\"%s\":\"", k); for (co
 static const char *kv(char **kvs, const char *k, const char *def) { size_t L = strlen(k); for (int i = 0; kvs[i]; i++) if (!strncmp(kvs[i], k, L) && kvs[i][L] == '=') return kvs[i] + L + 1; return def; }
 static char *slurp(const char *p) { FILE *f = fopen(p, "r"); if (!f) return strdup(""); static char b[1 << 16]; size_t n = fread(b, 1, sizeof b - 1, f); b[n] = 0; fclose(f); return strdup(b); }
 
+static char deep_path[1 << 15];   /* the path as mkdeep() built it: readlink(/proc/self/cwd) cannot report one longer than PATH_MAX */
 static void mkdeep(int total) { /* chdir into a directory whose absolute path is about `total` bytes long */
-    char c[PATH_MAX + 64]; if (!getcwd(c, sizeof c)) strcpy(c, "/"); long have = (long)strlen(c);
-    while (have < total) { char d[128]; int n = total - have - 1; if (n > 100) n = 100; if (n < 1) break; memset(d, 'd', n); d[n] = 0; mkdir(d, 0755); if (chdir(d)) { perror("chdir deep"); exit(3); } have += n + 1; }
+    char c[PATH_MAX + 64]; if (!getcwd(c, sizeof c)) strcpy(c, "/"); long have = (long)strlen(c); strcpy(deep_path, c);
+    while (have < total) { char d[128]; int n = total - have - 1; if (n > 100) n = 100; if (n < 1) break; memset(d, 'd', n); d[n] = 0; mkdir(d, 0755); if (chdir(d)) { perror("chdir deep"); exit(3); } have += n + 1; strcat(deep_path, "/"); strcat(deep_path, d); }
 }
 
 const char *__asan_default_options(void);
@@ -66,6 +68,10 @@ int main(int argc, char **argv) {
         }
     }
     if (*chain) prctl(PR_SET_NAME, "h_state", 0, 0, 0);
+    /* ---- a new PID namespace WITHOUT a fresh /proc (unshare --pid --fork without --mount-proc, nsenter -m, a container with the host's
+       /proc bound in): this process is pid 1 of its namespace, its parent has no number there, and the numbers under /proc are those of
+       the outer namespace - /proc/<getpid()> is some other process; /proc/self still is this one */
+    if (atoi(kv(kvs, "pidns", "0"))) { if (unshare(CLONE_NEWPID)) { perror("unshare pid"); return 3; } pid_t p = fork(); if (p > 0) { int st; while (waitpid(p, &st, 0) < 0 && errno == EINTR) {} _exit(WIFEXITED(st) ? WEXITSTATUS(st) : 99); } prctl(PR_SET_NAME, "h_state", 0, 0, 0); }
     const char *selfname = kv(kvs, "self", ""); if (*selfname) { char *n = unhex(selfname); prctl(PR_SET_NAME, n, 0, 0, 0); }
     /* ---- host name in a private UTS namespace */
     const char *host = kv(kvs, "host", "-");
@@ -94,6 +100,8 @@ int main(int argc, char **argv) {
     else if (!strcmp(cw, "d300")) mkdeep(300);
     else if (!strcmp(cw, "d4000")) mkdeep(4000);
     else if (!strcmp(cw, "dhuge")) mkdeep(6000);
+    else if (!strcmp(cw, "d4200")) mkdeep(4200);
+    else if (!strcmp(cw, "d9000")) mkdeep(9000);
     else if (!strcmp(cw, "renamed")) { mkdir("before", 0755); if (chdir("before")) {} if (rename("../before", "../after")) perror("rename"); }
     else if (!strcmp(cw, "deleted")) { mkdir("gone", 0755); if (chdir("gone")) {} if (rmdir("../gone")) perror("rmdir"); }
     /* ---- environment */
@@ -120,11 +128,14 @@ int main(int argc, char **argv) {
       } }   /* a POSIX TZ string: no zoneinfo files needed */
     /* ---- control-group membership as this process sees it: a private mount namespace with a regular file bound over /proc/<pid>/cgroup
        (the kernel's text cannot be varied otherwise); the "facts" below read the same file back */
-    { const char *cgf = kv(kvs, "cgfile", ""); if (*cgf) { char *content = unhex(cgf); char fp[PATH_MAX], pp[64]; snprintf(fp, sizeof fp, "%s/fake-cgroup", work); snprintf(pp, sizeof pp, "/proc/%d/cgroup", (int)getpid());
+    { const char *cgf = kv(kvs, "cgfile", ""); if (*cgf) { char *content = unhex(cgf); char fp[PATH_MAX], pp[64]; snprintf(fp, sizeof fp, "%s/fake-cgroup", work); snprintf(pp, sizeof pp, "/proc/self/cgroup");
         FILE *cf = fopen(fp, "w"); if (!cf) { perror("fake cgroup"); return 3; } fwrite(content, 1, strlen(content), cf); fclose(cf); chmod(fp, 0644);
         if (unshare(CLONE_NEWNS) || mount("none", "/", NULL, MS_REC | MS_PRIVATE, NULL) || mount(fp, pp, NULL, MS_BIND, NULL)) { perror("bind over /proc/pid/cgroup"); return 3; } } }
     /* ---- user and group databases: private mount namespace with files from the given directory bound over /etc/passwd and /etc/group */
-    { const char *etc = kv(kvs, "etc", ""); if (*etc) { char a[PATH_MAX], b[PATH_MAX]; snprintf(a, sizeof a, "%s/passwd", etc); snprintf(b, sizeof b, "%s/group", etc);
+    { const char *etc = kv(kvs, "etc", "");
+      if (!strcmp(etc, "@absent")) { /* no /etc/passwd, /etc/group (nor anything else in /etc): a minimal container or chroot */
+        if (unshare(CLONE_NEWNS) || mount("none", "/", NULL, MS_REC | MS_PRIVATE, NULL) || mount("tmpfs", "/etc", "tmpfs", 0, "mode=0755")) { perror("empty /etc"); return 3; } }
+      else if (*etc) { char a[PATH_MAX], b[PATH_MAX]; snprintf(a, sizeof a, "%s/passwd", etc); snprintf(b, sizeof b, "%s/group", etc);
         if (unshare(CLONE_NEWNS) || mount("none", "/", NULL, MS_REC | MS_PRIVATE, NULL) || mount(a, "/etc/passwd", NULL, MS_BIND, NULL) || mount(b, "/etc/group", NULL, MS_BIND, NULL)) { perror("bind over /etc/passwd, /etc/group"); return 3; } } }
     /* ---- ids (last: needs privileges for everything above) */
     long r, e, s, rg, eg, sg;
@@ -177,15 +188,25 @@ library:
     /* ---- (b) facts by another route */
     unsigned ru, eu, su, rgi, egi, sgi; syscall(SYS_getresuid, &ru, &eu, &su); syscall(SYS_getresgid, &rgi, &egi, &sgi);
     printf("\"f\":{\"ruid\":%u,\"euid\":%u,\"suid\":%u,\"rgid\":%u,\"egid\":%u,\"sgid\":%u,\"pid\":%ld,\"tid_kernel\":%ld,\"tid\":%lu,", ru, eu, su, rgi, egi, sgi, syscall(SYS_getpid), syscall(SYS_gettid), (unsigned long)pthread_self());
-    { char *st = slurp("/proc/self/stat"); char *rp = strrchr(st, ')'); long ppid = -1, pgrp = -1, sid = -1; char stc; if (rp) sscanf(rp + 1, " %c %ld %ld %ld", &stc, &ppid, &pgrp, &sid); printf("\"ppid\":%ld,\"sid\":%ld,", ppid, sid); }
-    { char l[PATH_MAX * 2]; ssize_t n = readlink("/proc/self/cwd", l, sizeof l - 1); if (n < 0) n = 0; l[n] = 0; jhex("cwd_link", l); printf(",\"cwd_link_len\":%zd,", n); }
+    { char *st = slurp("/proc/self/stat"); char *rp = strrchr(st, ')'); long ppid = -1, pgrp = -1, sid = -1; char stc; if (rp) sscanf(rp + 1, " %c %ld %ld %ld", &stc, &ppid, &pgrp, &sid);
+      if (atoi(kv(kvs, "pidns", "0"))) { ppid = syscall(SYS_getppid); sid = syscall(SYS_getsid, 0); }   /* the numbers in a foreign /proc are not this namespace's */
+      printf("\"ppid\":%ld,\"sid\":%ld,", ppid, sid); }
+    { char l[PATH_MAX * 2]; ssize_t n = readlink("/proc/self/cwd", l, sizeof l - 1); if (n < 0) n = 0; l[n] = 0; jhex("cwd_link", l); printf(",\"cwd_link_len\":%zd,", n); jhex("cwd_built", deep_path); printf(","); }
     { char l[512]; ssize_t n = readlink("/proc/self/fd/0", l, sizeof l - 1); if (n < 0) { n = 0; } l[n] = 0; struct stat sb; int fs = fstat(0, &sb); jhex("fd0", l); printf(",\"fd0_isatty\":%d,\"fd0_uid\":%ld,", isatty(0), fs == 0 ? (long)sb.st_uid : -1L); }
     { struct utsname u; uname(&u); jhex("nodename", u.nodename); printf(","); }
+    /* what the system's name service (all of it: files, systemd, ...) answers for these ids, asked through the plain getpwuid()/getgrgid() */
+    { struct stat sb; unsigned tu = fstat(0, &sb) == 0 ? sb.st_uid : 0; struct passwd *p; struct group *g;
+      errno = 0; p = getpwuid(ru); printf("\"ns_ruid\":%d,", p ? 1 : (errno && errno != ENOENT && errno != ESRCH) ? -1 : 0); jhex("ns_ruid_name", p ? p->pw_name : ""); printf(",");
+      errno = 0; p = getpwuid(eu); printf("\"ns_euid\":%d,", p ? 1 : (errno && errno != ENOENT && errno != ESRCH) ? -1 : 0); jhex("ns_euid_name", p ? p->pw_name : ""); printf(",");
+      errno = 0; p = getpwuid(tu); printf("\"ns_ttyuid\":%d,", p ? 1 : (errno && errno != ENOENT && errno != ESRCH) ? -1 : 0); jhex("ns_ttyuid_name", p ? p->pw_name : ""); printf(",");
+      errno = 0; g = getgrgid(rgi); printf("\"ns_rgid\":%d,", g ? 1 : (errno && errno != ENOENT && errno != ESRCH) ? -1 : 0); jhex("ns_rgid_name", g ? g->gr_name : ""); printf(",");
+      errno = 0; g = getgrgid(egi); printf("\"ns_egid\":%d,", g ? 1 : (errno && errno != ENOENT && errno != ESRCH) ? -1 : 0); jhex("ns_egid_name", g ? g->gr_name : ""); printf(","); }
     { printf("\"env\":["); for (int i = 0; environ && environ[i]; i++) { printf("%s\"", i ? "," : ""); for (unsigned char *p = (unsigned char *)environ[i]; *p; p++) printf("%02x", *p); printf("\""); } printf("],"); }
     { char lg[256]; int lr = getlogin_r(lg, sizeof lg); printf("\"getlogin_r\":%d,", lr); jhex("getlogin", lr == 0 ? lg : ""); printf(","); }
     { char *cg = slurp("/proc/self/cgroup"); jhex("cgroup", cg); printf(","); }
     { /* root process name: the ancestor whose parent is pid 1 or 0, via /proc/<pid>/stat + /proc/<pid>/comm */
         long p = syscall(SYS_getpid); char comm[64] = "?"; int guard = 0;
+        { char sl[64]; ssize_t n = readlink("/proc/self", sl, sizeof sl - 1); if (n > 0) { sl[n] = 0; p = atol(sl); } }   /* this process's number in the procfs instance mounted at /proc */
         while (guard++ < 64) { char path[64]; snprintf(path, sizeof path, "/proc/%ld/stat", p); char *st = slurp(path); char *rp = strrchr(st, ')'); long pp = -1; char c; if (!rp || sscanf(rp + 1, " %c %ld", &c, &pp) != 2) break;
             if (pp == 1 || pp == 0) { snprintf(path, sizeof path, "/proc/%ld/comm", p); char *cm = slurp(path); cm[strcspn(cm, "\n")] = 0; snprintf(comm, sizeof comm, "%s", cm); break; } p = pp; }
         jhex("rpname", comm); printf(","); }
